@@ -63,11 +63,13 @@ def structure(frame, data, window, hash_on=True, slice_size=SLICE):
         bad.append('magic')
     if h['checksum'] != (1 if hash_on else 0):
         bad.append('checksum flag %s' % h['checksum'])
-    if h.get('single_segment') or h.get('dict_id'):
+    if h.get('single') or h.get('dict_id') or h.get('fcs') is not None:
         bad.append('unexpected header fields')
     declared = h.get('window')
-    if declared is not None and declared < min(window, max(len(data), 1)) and declared < window:
-        bad.append('declared window %d smaller than the matcher window %d' % (declared, window))
+    if declared is None or declared < window:
+        bad.append('declared window %s smaller than the matcher window %d' % (declared, window))
+    if declared is not None and any(b[3] > declared for b in blocks if b[2] in (0, 1)):
+        bad.append('a block regenerates more than the declared window %d' % declared)
     if end != len(frame):
         bad.append('%d bytes after the end of the frame' % (len(frame) - end))
     nlast = sum(1 for b in blocks if b[1])
